@@ -26,3 +26,8 @@ Definition tokens_within_limits (ts : list ustr) : bool := forallb token_within_
 
 Definition no_leading_blank (s : ustr) : bool :=
   match s with c :: _ => negb (py_isspace c) | [] => true end.
+
+(* add / addne / addap never resolve their last reference token (it is used literally as the
+   member name, or as "-"/index, in the parent found by resolving the others): only the tokens
+   leading to the parent need to be outside the extensions *)
+Definition parent_outside_extensions (ts : list ustr) : bool := outside_extensions (removelast ts).
